@@ -55,8 +55,9 @@ func init() {
 	wrap("C02", c02R15, "R15 (added, F-C02-5): after the alias chase's sub-query (Cache.internalExchange) the outer reply is returned only with the target reply's AD folded into its own — whatever the target reply holds: records, an rcode or nothing; a bare NXDOMAIN / empty NOERROR from an insecure zone otherwise leaves as an authenticated denial under the alias's AD without any NSEC/NSEC3 behind it.")
 }
 
-func c02R15(c *Ctx) {
-	const R = "C02-R15"
+func c02R15(c *Ctx) { c02R15as(c, "C02-R15") }
+
+func c02R15as(c *Ctx, R string) {
 	const cp = "middleware/cache"
 	c.Doc(R, "every function that calls Cache.internalExchange and returns one of its own *dns.Msg parameters (the outer reply of the alias chase): from the call, each return of that parameter lies behind a store outer.AuthenticatedData ← false / ← (… M.AuthenticatedData …), behind M.AuthenticatedData = true, behind outer.AuthenticatedData = false, or behind 'no target reply' (err != nil / M == nil) — on every exit (merged records, adopted NXDOMAIN, empty target reply alike); M = result 0 of the call")
 	ix := c.fobj(R, cp+".(*Cache).internalExchange")
